@@ -450,74 +450,139 @@ end CacheReadProj
 theorem writeBack_none (s : FS) (h : s.cache.tag = none) : writeBack s = (.panic "write_back with no read", s) := by
   unfold writeBack; rw [h]
 
-theorem writeBack_some (s : FS) (idx : Nat) (h : s.cache.tag = some idx) : writeBack s = devWrite idx s := by
-  unfold writeBack; rw [h]
+/-- The cache forgets which block it holds (what a failed write-back does). -/
+def untagCache (s : FS) : FS := { s with cache := { s.cache with tag := none } }
+
+/-- A device write answers `Ok` or `DeviceError`. -/
+theorem devWrite_two (idx : Nat) (s : FS) :
+    (∃ s', devWrite idx s = (.ok (), s')) ∨ (∃ s', devWrite idx s = (.err .DeviceError, s')) := by
+  unfold devWrite; dsimp only; split
+  · exact .inr ⟨_, rfl⟩
+  · exact .inl ⟨_, rfl⟩
+
+theorem writeBack_some_ok {s s1 : FS} {idx : Nat} (h : s.cache.tag = some idx) (h1 : devWrite idx s = (.ok (), s1)) :
+    writeBack s = (.ok (), s1) := by
+  unfold writeBack; rw [h]; dsimp only; rw [h1]
+
+theorem writeBack_some_err {s s1 : FS} {idx : Nat} {e : Err} (h : s.cache.tag = some idx) (h1 : devWrite idx s = (.err e, s1)) :
+    writeBack s = (.err e, untagCache s1) := by
+  unfold writeBack; rw [h]; dsimp only; rw [h1]; rfl
 
 theorem writeBack_eq (s : FS) (idx : Nat) (hn : NoFault s) (h : s.cache.tag = some idx) :
     writeBack s = (.ok (), { s with
       dev := { s.dev with calls := s.dev.calls + 1, disk := s.dev.disk.set idx s.cache.blk,
-                          wlog := (idx, s.cache.blk) :: s.dev.wlog } }) := by
-  rw [writeBack_some s idx h, devWrite_eq idx s hn]
+                          wlog := (idx, s.cache.blk) :: s.dev.wlog } }) :=
+  writeBack_some_ok h (devWrite_eq idx s hn)
 
 theorem writeBackWithDuplicate_none (dup : Nat) (s : FS) (h : s.cache.tag = none) :
     writeBackWithDuplicate dup s = (.panic "write_back with no read", s) := by
   unfold writeBackWithDuplicate; rw [h]
 
+theorem writeBackDup_ok_ok {s s1 s2 : FS} {idx : Nat} (dup : Nat) (h : s.cache.tag = some idx)
+    (h1 : devWrite idx s = (.ok (), s1)) (h2 : devWrite dup s1 = (.ok (), s2)) : writeBackWithDuplicate dup s = (.ok (), s2) := by
+  unfold writeBackWithDuplicate; rw [h]; dsimp only; rw [h1]; dsimp only; rw [h2]
+
+theorem writeBackDup_ok_err {s s1 s2 : FS} {idx : Nat} {e : Err} (dup : Nat) (h : s.cache.tag = some idx)
+    (h1 : devWrite idx s = (.ok (), s1)) (h2 : devWrite dup s1 = (.err e, s2)) :
+    writeBackWithDuplicate dup s = (.err e, untagCache s2) := by
+  unfold writeBackWithDuplicate; rw [h]; dsimp only; rw [h1]; dsimp only; rw [h2]; rfl
+
+theorem writeBackDup_err {s s1 : FS} {idx : Nat} {e : Err} (dup : Nat) (h : s.cache.tag = some idx)
+    (h1 : devWrite idx s = (.err e, s1)) : writeBackWithDuplicate dup s = (.err e, untagCache s1) := by
+  unfold writeBackWithDuplicate; rw [h]; dsimp only; rw [h1]; rfl
+
 theorem writeBackWithDuplicate_eq (dup : Nat) (s : FS) (idx : Nat) (hn : NoFault s) (h : s.cache.tag = some idx) :
     writeBackWithDuplicate dup s = (.ok (), { s with
       dev := { s.dev with calls := s.dev.calls + 2,
                           disk := (s.dev.disk.set idx s.cache.blk).set dup s.cache.blk,
-                          wlog := (dup, s.cache.blk) :: (idx, s.cache.blk) :: s.dev.wlog } }) := by
-  unfold writeBackWithDuplicate; rw [h]
-  simp only [devWrite_eq idx s hn]
-  exact devWrite_eq dup _ hn
+                          wlog := (dup, s.cache.blk) :: (idx, s.cache.blk) :: s.dev.wlog } }) :=
+  writeBackDup_ok_ok dup h (devWrite_eq idx s hn) (devWrite_eq dup _ hn)
+
+/-- The three shapes of a write-back from a tagged cache. -/
+theorem writeBack_cases (s : FS) (idx : Nat) (h : s.cache.tag = some idx) :
+    (∃ s1, devWrite idx s = (.ok (), s1) ∧ writeBack s = (.ok (), s1)) ∨
+    (∃ s1, devWrite idx s = (.err .DeviceError, s1) ∧ writeBack s = (.err .DeviceError, untagCache s1)) := by
+  rcases devWrite_two idx s with ⟨s1, h1⟩ | ⟨s1, h1⟩
+  · exact .inl ⟨s1, h1, writeBack_some_ok h h1⟩
+  · exact .inr ⟨s1, h1, writeBack_some_err h h1⟩
+
+theorem writeBackDup_cases (dup : Nat) (s : FS) (idx : Nat) (h : s.cache.tag = some idx) :
+    (∃ s1 s2, devWrite idx s = (.ok (), s1) ∧ devWrite dup s1 = (.ok (), s2) ∧ writeBackWithDuplicate dup s = (.ok (), s2)) ∨
+    (∃ s1 s2, devWrite idx s = (.ok (), s1) ∧ devWrite dup s1 = (.err .DeviceError, s2) ∧
+      writeBackWithDuplicate dup s = (.err .DeviceError, untagCache s2)) ∨
+    (∃ s1, devWrite idx s = (.err .DeviceError, s1) ∧ writeBackWithDuplicate dup s = (.err .DeviceError, untagCache s1)) := by
+  rcases devWrite_two idx s with ⟨s1, h1⟩ | ⟨s1, h1⟩
+  · rcases devWrite_two dup s1 with ⟨s2, h2⟩ | ⟨s2, h2⟩
+    · exact .inl ⟨s1, s2, h1, h2, writeBackDup_ok_ok dup h h1 h2⟩
+    · exact .inr (.inl ⟨s1, s2, h1, h2, writeBackDup_ok_err dup h h1 h2⟩)
+  · exact .inr (.inr ⟨s1, h1, writeBackDup_err dup h h1⟩)
 
 @[simp] theorem writeBack_vol (s : FS) : (writeBack s).2.vol = s.vol := by
-  unfold writeBack; split
-  · rfl
-  · exact devWrite_vol _ _
-@[simp] theorem writeBack_cache (s : FS) : (writeBack s).2.cache = s.cache := by
-  unfold writeBack; split
-  · rfl
-  · exact devWrite_cache _ _
+  cases ht : s.cache.tag with
+  | none => rw [writeBack_none s ht]
+  | some idx =>
+    rcases writeBack_cases s idx ht with ⟨s1, h1, h2⟩ | ⟨s1, h1, h2⟩ <;> rw [h2] <;>
+      have := devWrite_vol idx s <;> rw [h1] at this <;> exact this
+/-- The cached block survives a write-back (the TAG does not when the device write fails). -/
+@[simp] theorem writeBack_blk (s : FS) : (writeBack s).2.cache.blk = s.cache.blk := by
+  cases ht : s.cache.tag with
+  | none => rw [writeBack_none s ht]
+  | some idx =>
+    rcases writeBack_cases s idx ht with ⟨s1, h1, h2⟩ | ⟨s1, h1, h2⟩ <;> rw [h2] <;>
+      have := devWrite_cache idx s <;> rw [h1] at this <;> simp only at this
+    · rw [this]
+    · show s1.cache.blk = _; rw [this]
+theorem writeBack_tag (s : FS) : (writeBack s).2.cache.tag = s.cache.tag ∨ (writeBack s).2.cache.tag = none := by
+  cases ht : s.cache.tag with
+  | none => rw [writeBack_none s ht]; exact .inl ht
+  | some idx =>
+    rcases writeBack_cases s idx ht with ⟨s1, h1, h2⟩ | ⟨s1, h1, h2⟩ <;> rw [h2]
+    · have := devWrite_cache idx s; rw [h1] at this; simp only at this
+      left; rw [this]; exact ht
+    · exact .inr rfl
 @[simp] theorem writeBack_faults (s : FS) : (writeBack s).2.dev.faults = s.dev.faults := by
-  unfold writeBack; split
-  · rfl
-  · exact devWrite_faults _ _
+  cases ht : s.cache.tag with
+  | none => rw [writeBack_none s ht]
+  | some idx =>
+    rcases writeBack_cases s idx ht with ⟨s1, h1, h2⟩ | ⟨s1, h1, h2⟩ <;> rw [h2] <;>
+      have := devWrite_faults idx s <;> rw [h1] at this <;> exact this
 @[simp] theorem writeBackWithDuplicate_vol (dup : Nat) (s : FS) : (writeBackWithDuplicate dup s).2.vol = s.vol := by
-  unfold writeBackWithDuplicate; split
-  · rfl
-  · rename_i idx _
-    have h1 := devWrite_vol idx s
-    split
-    · rename_i s' heq
-      rw [heq] at h1
-      rw [devWrite_vol]; exact h1
-    · rename_i r s' _ heq
-      rw [heq] at h1; exact h1
-@[simp] theorem writeBackWithDuplicate_cache (dup : Nat) (s : FS) : (writeBackWithDuplicate dup s).2.cache = s.cache := by
-  unfold writeBackWithDuplicate; split
-  · rfl
-  · rename_i idx _
-    have h1 := devWrite_cache idx s
-    split
-    · rename_i s' heq
-      rw [heq] at h1
-      rw [devWrite_cache]; exact h1
-    · rename_i r s' _ heq
-      rw [heq] at h1; exact h1
+  cases ht : s.cache.tag with
+  | none => rw [writeBackWithDuplicate_none dup s ht]
+  | some idx =>
+    rcases writeBackDup_cases dup s idx ht with ⟨s1, s2, h1, h2, h3⟩ | ⟨s1, s2, h1, h2, h3⟩ | ⟨s1, h1, h3⟩ <;> rw [h3]
+    · have a := devWrite_vol idx s; have b := devWrite_vol dup s1; rw [h1] at a; rw [h2] at b; exact b.trans a
+    · have a := devWrite_vol idx s; have b := devWrite_vol dup s1; rw [h1] at a; rw [h2] at b; exact b.trans a
+    · have a := devWrite_vol idx s; rw [h1] at a; exact a
+@[simp] theorem writeBackWithDuplicate_blk (dup : Nat) (s : FS) : (writeBackWithDuplicate dup s).2.cache.blk = s.cache.blk := by
+  cases ht : s.cache.tag with
+  | none => rw [writeBackWithDuplicate_none dup s ht]
+  | some idx =>
+    rcases writeBackDup_cases dup s idx ht with ⟨s1, s2, h1, h2, h3⟩ | ⟨s1, s2, h1, h2, h3⟩ | ⟨s1, h1, h3⟩ <;> rw [h3]
+    · have a := devWrite_cache idx s; have b := devWrite_cache dup s1; rw [h1] at a; rw [h2] at b
+      simp only at a b; rw [b, a]
+    · have a := devWrite_cache idx s; have b := devWrite_cache dup s1; rw [h1] at a; rw [h2] at b
+      simp only at a b; show s2.cache.blk = _; rw [b, a]
+    · have a := devWrite_cache idx s; rw [h1] at a; simp only at a; show s1.cache.blk = _; rw [a]
+theorem writeBackWithDuplicate_tag (dup : Nat) (s : FS) :
+    (writeBackWithDuplicate dup s).2.cache.tag = s.cache.tag ∨ (writeBackWithDuplicate dup s).2.cache.tag = none := by
+  cases ht : s.cache.tag with
+  | none => rw [writeBackWithDuplicate_none dup s ht]; exact .inl ht
+  | some idx =>
+    rcases writeBackDup_cases dup s idx ht with ⟨s1, s2, h1, h2, h3⟩ | ⟨s1, s2, h1, h2, h3⟩ | ⟨s1, h1, h3⟩ <;> rw [h3]
+    · have a := devWrite_cache idx s; have b := devWrite_cache dup s1; rw [h1] at a; rw [h2] at b
+      simp only at a b; left; rw [b, a]; exact ht
+    · exact .inr rfl
+    · exact .inr rfl
 @[simp] theorem writeBackWithDuplicate_faults (dup : Nat) (s : FS) :
     (writeBackWithDuplicate dup s).2.dev.faults = s.dev.faults := by
-  unfold writeBackWithDuplicate; split
-  · rfl
-  · rename_i idx _
-    have h1 := devWrite_faults idx s
-    split
-    · rename_i s' heq
-      rw [heq] at h1
-      rw [devWrite_faults]; exact h1
-    · rename_i r s' _ heq
-      rw [heq] at h1; exact h1
+  cases ht : s.cache.tag with
+  | none => rw [writeBackWithDuplicate_none dup s ht]
+  | some idx =>
+    rcases writeBackDup_cases dup s idx ht with ⟨s1, s2, h1, h2, h3⟩ | ⟨s1, s2, h1, h2, h3⟩ | ⟨s1, h1, h3⟩ <;> rw [h3]
+    · have a := devWrite_faults idx s; have b := devWrite_faults dup s1; rw [h1] at a; rw [h2] at b; exact b.trans a
+    · have a := devWrite_faults idx s; have b := devWrite_faults dup s1; rw [h1] at a; rw [h2] at b; exact b.trans a
+    · have a := devWrite_faults idx s; rw [h1] at a; exact a
 
 section WriteBackProj
 variable (s : FS) (idx : Nat) (hn : NoFault s) (h : s.cache.tag = some idx)
